@@ -104,3 +104,34 @@ func (m *Machine) vfEmitted(fn *ssa.Function, code Value) Value {
 	m.env["skeletons"] = append(m.env["skeletons"].([]string), text)
 	return m.fromGo(reflect.ValueOf(em), fn.Signature.Results().At(0).Type(), holes)
 }
+
+// progImporter resolves imports from the packages loaded for the analysis
+// (the repository's own dependencies, at the versions pinned in go.mod).
+type progImporter struct{ prog *ssa.Program }
+
+func (p progImporter) Import(path string) (*types.Package, error) {
+	if sp := p.prog.ImportedPackage(path); sp != nil {
+		return sp.Pkg, nil
+	}
+	return nil, fmt.Errorf("not loaded: %s", path)
+}
+
+// vfTypeErrors(code string, allowed string) []string: go/types on the
+// skeleton of the rendered text (a concrete evaluation on a path-concrete
+// term, DESIGN 3.12 obligation 5). allowed: space-separated current-package
+// symbols the configuration names.
+func (m *Machine) vfTypeErrors(code Value, allowed Value) Value {
+	ct := toTerm(forceLazy(code))
+	text, _ := m.skeletonOf(ct)
+	al, _ := forceLazy(allowed).(string)
+	set := map[string]bool{}
+	for _, a := range strings.Fields(al) {
+		set[a] = true
+	}
+	errs := skel.TypeErrors(text, progImporter{m.Prog}, func(n string) bool { return set[n] })
+	var out []Value
+	for _, e := range errs {
+		out = append(out, e)
+	}
+	return m.stringSlice(out)
+}
